@@ -172,6 +172,10 @@ type $NBox struct {
 	n int
 }
 
+$RONLY{func (b *$NBox) MoveNext() bool { return b.Iter.MoveNext() }
+
+func (b *$NBox) Current() int { return b.Iter.Current() }
+}
 type $NOuter struct {
 	$NBox
 	tag string
@@ -192,7 +196,65 @@ func $NC(a int) (res int) {
 		res += v
 	}
 	return
-}`, entries: []*Entry{callEntry("$NC", 1, nil)}},
+}
+
+// the embedded iterator's methods are promoted: pull-style code through the struct, and the struct is an iterator itself
+type $NPuller interface {
+	MoveNext() bool
+	Current() int
+}
+
+func $NPull(p $NPuller) (res int) {
+	for p.MoveNext() {
+		res = res*2 + p.Current()
+	}
+	return
+}
+
+func $ND(a int) (res int) {
+	c := &$NBox{Iter: $NG(a)}
+	if c.MoveNext() {
+		res = c.Current() + c.n
+	}
+	res = res*100 + $NPull(c)
+	o := $NOuter{$NBox{$NG(a), 2}, "t"}
+	next := o.MoveNext
+	for next() {
+		res += o.Current()
+	}
+	return
+}`, entries: []*Entry{callEntry("$NC", 1, nil), callEntry("$ND", 1, nil)}},
+	// partial redeclarations whose re-used variable takes an untyped NON-constant value: comma-ok results, comparisons,
+	// non-constant shifts get their type from the variable they are assigned to
+	{name: "mixed-define-redeclared-typed-variable-with-untyped-nonconstant-value", decls: baseGen + `
+type $NFlag bool
+
+$GEN{$NH(a int)}{int}{
+	var ok $NFlag
+	var n uint8
+	mp := map[int]int{1: 7}
+	getok := func() bool { return bool(ok) }
+	$YIELD{0}
+	v, ok := mp[a]
+	$YIELD{v}
+	if getok() {
+		$YIELD{100}
+	}
+	lt, ok := a < 2, a > 0
+	if lt && getok() {
+		$YIELD{101}
+	}
+	s := uint(a)
+	n, m := 1<<s, 2
+	$YIELD{int(n) + m}
+	var e error
+	var x any = a
+	w, e := x.(int), nil
+	if e == nil {
+		$YIELD{w + 200}
+	}
+	$RET
+}`, entries: []*Entry{drive("$NH", "int", 1, nil)}},
 	{name: "method-generator-on-generic-type", decls: `
 type $NBox[T any] struct {
 	xs  []T
@@ -327,6 +389,20 @@ func $NC(a int) (res int) {
 	return
 }`, entries: []*Entry{callEntry("$NC", 1, nil)}},
 	{name: "pointer-array-new-make-of-iterators", decls: baseGen + `
+func $NDrain(p *$ITER{int}) (s int) {
+	for $SONLY{p.MoveNext()}$RONLY{(*p).MoveNext()} {
+		s = s*2 + $SONLY{p.Current()}$RONLY{(*p).Current()}
+	}
+	return
+}
+
+func $ND(a int) int {
+	it := $NG(a)
+	next := $SONLY{(&it).MoveNext}$RONLY{it.MoveNext}
+	next()
+	return $NDrain(&it)
+}
+
 func $NC(a int) (res int) {
 	p := new($ITER{int})
 	*p = $NG(a)
@@ -356,7 +432,7 @@ func $NC(a int) (res int) {
 		res = res*2 + v
 	}
 	return
-}`, entries: []*Entry{callEntry("$NC", 1, nil)}},
+}`, entries: []*Entry{callEntry("$NC", 1, nil), callEntry("$ND", 1, nil)}},
 	{name: "type-switch-and-assertion-on-iterator-types", decls: baseGen + `
 $GEN{$NS(a int)}{string}{
 	$YIELD{"s"}
@@ -544,7 +620,7 @@ func $NC(a int) (res int) {
 var rangeShapes7 = []shape{
 	// Go does not evaluate the range expression when at most one iteration variable is present and len(x) is constant
 	// (arrays and pointers to arrays without function calls / channel receives in the expression)
-	{name: "key-only-range-over-array-behind-nil-pointer", decls: `
+	{name: "key-only-range-over-array-behind-nil-pointer", imports: []string{`"unsafe"`}, decls: `
 type $NS struct{ A [3]int }
 
 $GEN{$NG(a int)}{int}{
@@ -571,6 +647,24 @@ $GEN{$NG(a int)}{int}{
 	}
 	for i := range (p.A) {
 		$YIELD{200 + i}
+	}
+	var arrs [][2]int
+	k := int8(5)
+	for i := range arrs[int(k)] {
+		$YIELD{500 + i}
+	}
+	for i := range arrs[len("abcdefgh")] {
+		$YIELD{510 + i}
+	}
+	for i := range (*$NS)(unsafe.Pointer(p)).A {
+		$YIELD{520 + i}
+	}
+	for i := range *(*[2]int)(nil) {
+		$YIELD{530 + i}
+	}
+	var hs []*$NS
+	for i := range hs[min(1, 2)].A {
+		$YIELD{540 + i}
 	}
 	rows := make(chan [2]int, 2)
 	rows <- [2]int{a, a}
@@ -665,6 +759,24 @@ func $NB(a int) int {
 	c <- 1
 	return g(c, map[string][]int{"k": nil}, func(x int) int { return x + a }, $NCfg{2}, &$NCfg{3}, [2]int{4, 5}, nil)
 }`, entries: []*Entry{callEntry("$NB", 1, nil)}},
+	// a variadic literal that passes its slice parameter as ONE argument: with `...any` the types of literal and callee are
+	// identical, the meaning is not (f(xs) packs the slice into a one-element slice)
+	{name: "eta-variadic-literal-passing-the-slice-as-one-argument", tags: []string{"eta-shape"}, imports: []string{`"fmt"`}, decls: byGen + `
+func $NCount(xs ...any) int { return len(xs) }
+
+func $NFirst[T any](xs ...T) T { return xs[0] }
+
+func $NB(a int) int {
+	show := func(args ...any) string { return fmt.Sprint(args) }
+	c := func(xs ...any) int { return $NCount(xs) }
+	f := func(xs ...any) any { return $NFirst[any](xs) }
+	_, isSlice := f(a, 2).([]any)
+	n := 0
+	if isSlice {
+		n = 100
+	}
+	return len(show(a, 2, "x"))*1000 + c(a, 2, 3)*10 + n
+}`, entries: []*Entry{callEntry("$NB", 1, nil)}},
 	{name: "range-over-func-outside-generators", decls: byGen + `
 func $NSeq(n int) func(func(int) bool) {
 	return func(y func(int) bool) {
@@ -715,6 +827,36 @@ var injections7 = []injection{
 // ---- closures in generators / conditions (C13, C11, C01) ---------------------------------------------
 
 var closureInGeneratorShapes7 = []shape{
+	// a three-clause loop WITHOUT a yield, written directly in a generator: it stays a native loop, so its variable is
+	// per-iteration (go >= 1.22 sources) like in any other function
+	{name: "per-iteration-variable-of-a-yield-free-loop-in-the-generator-itself", decls: `
+$GEN{$NG(a int)}{int}{
+	var fs []func() int
+	for i := 0; i < 3; i++ {
+		fs = append(fs, func() int { return i + a })
+	}
+	for _, f := range fs {
+		$YIELD{f()}
+	}
+	var ps []*int
+	for j := a; j < a+2; j++ {
+		ps = append(ps, &j)
+	}
+	for _, p := range ps {
+		$YIELD{*p}
+	}
+	var gs []func() $ITER{int}
+	for k := 0; k < 2; k++ {
+		gs = append(gs, $GEN{()}{int}{
+			$YIELD{k * 10}
+			$RET
+		})
+	}
+	for _, g := range gs {
+		$YFROM{g()}
+	}
+	$RET
+}`, entries: []*Entry{drive("$NG", "int", 1, [][]int{{0}, {2}})}},
 	{name: "conditions-of-named-bool-types", decls: `
 type $NB bool
 
@@ -746,7 +888,19 @@ $GEN{$NG(a int)}{int}{
 		flag = $NOk(k, 1)
 	}
 	$RET
-}`, entries: []*Entry{drive("$NG", "int", 1, nil)}},
+}
+
+$GEN{$NT[B ~bool](b B, a int)}{int}{
+	for b {
+		$YIELD{a}
+		b = false
+	}
+	for i := 0; b || B(i < a); i++ {
+		$YIELD{400 + i}
+	}
+	$RET
+}`, entries: []*Entry{drive("$NG", "int", 1, nil), {Name: "$NT", Kind: "drive", Call: "$P$NT(true, $0)", Elem: "int", Inputs: allInputs(1, 0, 3), Scripts: []string{"std"}},
+		{Name: "$NTb", Kind: "drive", Call: "$P$NT($NB(false), $0)", Elem: "int", Inputs: allInputs(1, 0, 3), Scripts: []string{"std"}}}},
 }
 
 // ---- delegation (C05) ------------------------------------------------------------------------------
